@@ -111,6 +111,7 @@ static inline int vorbis_ftoi(double f){  /* yes, double!  Otherwise,
                                              we get extra fst/fld to
                                              truncate precision */
   int i;
+  if(f>=2147483647.)return 2147483647; /* fistl stores INT_MIN on overflow */
   __asm__("fistl %0": "=m"(i) : "t"(f));
   return(i);
 }
@@ -126,6 +127,7 @@ typedef ogg_int16_t vorbis_fpu_control;
 
 static __inline int vorbis_ftoi(double f){
         int i;
+        if(f>=2147483647.)return 2147483647; /* fistp stores INT_MIN on overflow */
         __asm{
                 fld f
                 fistp i
@@ -153,6 +155,9 @@ typedef ogg_int16_t vorbis_fpu_control;
 
 #include <emmintrin.h>
 static __inline int vorbis_ftoi(double f){
+        /* cvtsd2si yields INT_MIN for every out-of-range input; saturate the
+           positive side so callers' clipping sees the right sign */
+        if(f>=2147483647.)return 2147483647;
         return _mm_cvtsd_si32(_mm_load_sd(&f));
 }
 
@@ -177,6 +182,8 @@ STIN int vorbis_ftoi(double f){
         /* Note: MSVC and GCC (at least on some systems) round towards zero, thus,
            the floor() call is required to ensure correct roudning of
            negative numbers */
+        if(f>=2147483647.)return 2147483647;
+        if(f<=-2147483648.)return (-2147483647-1);
         return (int)floor(f+.5);
 }
 
